@@ -1,4 +1,5 @@
 """C04 — ThresholdOptimizer equalises the constrained metric exactly on the training data."""
+import math
 from fractions import Fraction as F
 
 from .. import thr_common as tc
@@ -32,6 +33,15 @@ def common_judge(case, o, mo, pid):
     # ---------------- oracle on the implementation's own outputs --------------------------------------
     if o["keys"] != sorted(str(tc.gname(case, g)) for g in gs):
         probs.append(Problem("property", f"interpolation_dict keys {o['keys']} are not the groups", f"{pid}.keys"))
+        return probs, ctx
+    # NaN / inf anywhere in the fitted rule or the reported pmf (0/0 in the interpolation, p_ignore, ...) is a violation
+    # by itself: the rule is not a randomised threshold rule at all
+    nonfinite = [f"group {g}: {k}={o['rules'][str(g)][k]!r}" for g in gs for k in ("p0", "p1", "p_ignore", "const")
+                 if o["rules"][str(g)][k] is not None and not math.isfinite(o["rules"][str(g)][k])]
+    nonfinite += [f"_pmf_predict row {k}: {v!r}" for k, v in enumerate(o["pmf1"]) if not math.isfinite(v)][:3]
+    if nonfinite:
+        probs.append(Problem("property", "fitted rule / pmf is not finite: " + "; ".join(nonfinite[:4]),
+                             "C04.rule-is-mixture"))
         return probs, ctx
     view = tc.impl_view(case, o)
     ctx["view"] = view
@@ -244,7 +254,7 @@ class CHECK(ThresholdCheck):
     def judge(self, case, o, mo):
         probs, ctx = common_judge(case, o, mo, "C04")
         stash_tags(o, ctx)
-        return probs
+        return [p for p in probs if p.kind != "tie-noted"]
 
     def signature(self, case, o):
         return super().signature(case, o)
